@@ -225,13 +225,16 @@ func (b *Body) applyContract(v ssa.Value, con *FnContract, key string, sig *type
 	}
 	post := b.calleeEnv(con, sig, c.IsInvoke(), args, st, pre)
 	b.bindResults(post, sig, res)
-	for _, e := range con.Ensures {
+	for _, e := range append(append([]*Clause{}, con.Ensures...), con.Assumes...) {
 		g, err := post.EvalBool(e.Expr)
 		if err != nil {
 			ft.shapeFail(e, fmt.Errorf("at call to %s: %v", key, err))
 			continue
 		}
 		ft.fact(Imp(reach, g))
+	}
+	if len(con.Assumes) > 0 {
+		ft.trusted[key+" (assumed clauses: "+fmt.Sprint(len(con.Assumes))+")"] = true
 	}
 }
 
